@@ -56,7 +56,7 @@ Fixpoint accepts_kind (t : ty) (k : kind) : bool :=
   | TSeq _ _ | TTuple _ => is_seq_kind k
   | TDict _ _ | TStruct _ | TTagged _ _ _ => is_map_kind k
   | TUnion ms => existsb (fun m => accepts_kind m k) ms
-  | TLiteral vals => existsb (fun l => kind_compat k (kind_of l)) vals
+  | TLiteral vals => existsb (fun l => kind_eqb k (kind_of l)) vals       (* the literal's own kind, exactly *)
   | TEnum _ members =>
       match enum_inner members with
       | TUnion hs => existsb (fun h => match h with TScalar s => strict_ok s k | TNone => match k with KNone => true | _ => false end | _ => true end) hs
@@ -98,9 +98,9 @@ Proof.
   - destruct (gates_strict (kind_of v)) as (_ & G & _). rewrite G in Hx. destruct (is_map_kind (kind_of v)); [reflexivity|discriminate].
   - apply first_ok_exists in Hx as (m & Hin & Hm). apply existsb_exists. exists m. split; [assumption|].
     rewrite Forall_forall in H. eapply H; eauto.
-  - destruct (existsb (py_eqb v) vals) eqn:E; [|discriminate].
+  - destruct (existsb (lit_match v) vals) eqn:E; [|discriminate].
     apply existsb_exists in E as (l & Hin & Hl). apply existsb_exists. exists l. split; [assumption|].
-    now apply py_eqb_kind.
+    unfold lit_match in Hl. apply andb_prop in Hl. tauto.
   - unfold tc_enum_inner in Hx. destruct (enum_inner ms) as [| |s| | | | | hs| | | | |] eqn:E; try reflexivity.
     + destruct (tc_head TNone v) as [y| |e] eqn:T; try discriminate. apply (head_kind TNone v y T).
     + destruct (tc_head (TScalar s) v) as [y| |e] eqn:T; try discriminate. apply (head_kind (TScalar s) v y T).
